@@ -21,7 +21,7 @@ func init() {
 			`R15.3 ordered fan-in: the channel consumed by writeMessages has exactly one (single-instance) sender, workers send only on their own channel, the collector hands the token back and the dispatcher takes it before handing out work; ` +
 			`R15.4 ambient values (time, CPU count, GOMAXPROCS, random, pid, memory statistics) reach only statistics fields and diagnostics, never comparisons, data or parameters. ` +
 			`R15.5 the buffer handed to io.ReadAtLeast in package wsync is exactly min long (s[lo:lo+min], s[:min], or min = len(buf)): how much a refill takes does not depend on the reader. ` +
-			`NOT decided: byte-identical output as such, races on slice elements (partitioned sub-slices), races inside dependencies, short reads of the source pool.`,
+			`R15.6 no function of the module outside init/Register* assigns, updates, writes through or hands out as a buffer a package-level variable (generated .pb.go excluded). NOT decided: byte-identical output as such, races on slice elements (partitioned sub-slices), races inside dependencies, short reads of the source pool.`,
 		Assumptions: []string{
 			"slice element accesses are not tracked (partitioned sub-slices such as I[st:en] cannot be proved disjoint statically)",
 			"state.Consumer callbacks and other external callbacks are assumed internally synchronised",
@@ -108,6 +108,24 @@ func runC15(c *core.Ctx) {
 	c.Rule("R15.3", "ordered fan-in")
 	c.Rule("R15.4", "no ambient nondeterminism on the data path")
 	ruleRefillTakesExactlyOneBlock(c, "R15.5")
+	c.Rule("R15.6", "no package-level buffer, table or object is written on the working paths")
+	{
+		nFn := 0
+		for _, fn := range c.P.SrcFuncs() {
+			if fn.Parent() != nil || !strings.HasPrefix(core.PkgPathOf(fn), core.Mod) || strings.HasSuffix(core.PkgPathOf(fn), "/wtest") {
+				continue
+			}
+			if strings.Contains(c.P.Pos(fn.Pos()), ".pb.go:") {
+				continue // generated descriptor tables, initialised once under sync.Once
+			}
+			nFn++
+			for _, w := range sharedGlobalWrites(fn) {
+				c.Bad("R15.6", core.FnName(fn), "package-level "+w.what, core.InstrPos(w.in),
+					"the package-level variable "+w.name+" is "+w.what+": every diff, signature or application running in the process shares it. Two of them in flight overwrite each other's data (a copy buffer handed from the reader goroutine to the differ and the signer carries the other build's bytes) and the result depends on the schedule")
+			}
+		}
+		c.Floor("R15.6", "top-level functions of the module", nFn, 100)
+	}
 	sites := []struct {
 		pkg, fn string
 		min     int
@@ -850,6 +868,9 @@ func fixturesC15(fc *core.Ctx) map[string]bool {
 		if len(dotDotTextTests(fn)) > 0 {
 			rep[fn.Name()] = true
 		}
+		if len(sharedGlobalWrites(fn)) > 0 {
+			rep[fn.Name()] = true
+		}
 		core.Instrs(fn, func(in ssa.Instruction) {
 			if rg, ok := in.(*ssa.Range); ok {
 				if _, isMap := rg.X.Type().Underlying().(*types.Map); isMap && len(mapRangeProblems(fn, rg)) > 0 {
@@ -957,4 +978,89 @@ func ruleRefillTakesExactlyOneBlock(c *core.Ctx, rule string) {
 		})
 	}
 	c.Floor(rule, "io.ReadAtLeast refills in package wsync", n, 1)
+}
+
+type globalWrite struct {
+	in   ssa.Instruction
+	name string
+	what string
+}
+
+// sharedGlobalWrites lists, in fn's family, the places where data reachable through a package-level variable
+// of the module (or of the fixtures) is written or handed to a callee that may write it: element stores, map
+// updates, stores through a pointer, a slice passed as an argument, and assignments to the variable itself -
+// outside init and registration functions, which run before any work starts.
+func sharedGlobalWrites(top *ssa.Function) []globalWrite {
+	if top.Name() == "init" || strings.HasPrefix(top.Name(), "init#") || strings.HasPrefix(top.Name(), "Register") {
+		return nil
+	}
+	var out []globalWrite
+	ownGlobal := func(v ssa.Value) *ssa.Global {
+		ld, ok := v.(*ssa.UnOp)
+		if !ok || ld.Op != token.MUL {
+			return nil
+		}
+		g, ok := ld.X.(*ssa.Global)
+		if !ok || g.Pkg == nil {
+			return nil
+		}
+		pp := g.Pkg.Pkg.Path()
+		if !strings.HasPrefix(pp, core.Mod) && !strings.Contains(pp, "/fixtures/") && !strings.HasPrefix(pp, "wharfverif/") {
+			return nil
+		}
+		return g
+	}
+	fromGlobal := func(v ssa.Value) *ssa.Global {
+		for _, o := range core.Origins(v) {
+			if g := ownGlobal(o); g != nil {
+				return g
+			}
+			if sl, ok := o.(*ssa.Slice); ok {
+				for _, oo := range core.Origins(sl.X) {
+					if g := ownGlobal(oo); g != nil {
+						return g
+					}
+				}
+			}
+		}
+		return nil
+	}
+	for _, f := range core.WithAnons(top) {
+		core.Instrs(f, func(in ssa.Instruction) {
+			switch x := in.(type) {
+			case *ssa.Store:
+				if g, ok := x.Addr.(*ssa.Global); ok && g.Pkg != nil && strings.HasPrefix(g.Pkg.Pkg.Path(), core.Mod) {
+					out = append(out, globalWrite{in, g.Name(), "assigned outside init"})
+					return
+				}
+				switch a := x.Addr.(type) {
+				case *ssa.IndexAddr:
+					if g := fromGlobal(a.X); g != nil {
+						out = append(out, globalWrite{in, g.Name(), "written element by element"})
+					}
+				case *ssa.FieldAddr:
+					if g := fromGlobal(a.X); g != nil {
+						out = append(out, globalWrite{in, g.Name(), "written through"})
+					}
+				}
+			case *ssa.MapUpdate:
+				if g := fromGlobal(x.Map); g != nil {
+					out = append(out, globalWrite{in, g.Name(), "updated"})
+				}
+			case ssa.CallInstruction:
+				for _, a := range x.Common().Args {
+					if _, isSlice := a.Type().Underlying().(*types.Slice); !isSlice {
+						continue
+					}
+					if b, ok := x.Common().Value.(*ssa.Builtin); ok && (b.Name() == "len" || b.Name() == "cap") {
+						continue
+					}
+					if g := fromGlobal(a); g != nil {
+						out = append(out, globalWrite{in, g.Name(), "handed to " + core.CalleeName(x) + " as a buffer"})
+					}
+				}
+			}
+		})
+	}
+	return out
 }
